@@ -277,6 +277,21 @@ def run(prog, chk):
                        '%s(…) subscripts %s.%s[%s] for kind %s: the call needs the dominating test %s < 0 || %s >= <length of that array> (found lower=%s upper=%s)' % (
                            h.short, SX.show(_peel(a_arr))[:20], base['name'], jt, kind, jt, jt, lo2, hi2), key='subscript:%s:%s:%s' % (f2.short, h.short, base['name']))
     chk.count('computed subscripts of value arrays', nsub, 12)
+    # ---- R07.10: the value of an expression depends on the program state only ----------------------
+    # no variable with static storage duration in the evaluator's sources is mutable (a formatting stream kept between calls
+    # carries `fixed`/precision from one echoed value into the next; a cached result survives a shot).  Same rule as C18's R18.2,
+    # restricted to the evaluator and the simulator.
+    chk.rule('R07.10', 'no mutable static or thread-local storage in the evaluator: evaluation depends on the program state only')
+    nst = 0
+    for key, gl in prog.facts.globals.items():
+        if not (gl['file'].endswith('runtime_evaluator.cpp') or gl['file'].endswith('runtime_evaluator.hpp')):
+            continue
+        nst += 1
+        ok = gl['const'] or ('lambda at' in gl['type'] and SX.is_node(gl.get('init')) and gl['init'].get('k') == 'lambda' and not gl['init'].get('captures') and not gl['init'].get('defcap'))
+        chk.ob('R07.10', gl['name'], '%s:%s' % (prog.rel(gl['file']), gl['ln']), ok,
+               'static-storage variable %s in the evaluator must be constant%s' % (gl['name'].split('::')[-1], '' if ok else ' (it keeps state from one evaluation to the next)'),
+               key='static:' + gl['name'].split('::')[-1], nontrivial=not gl['const'])
+    chk.count('static-storage variables in the evaluator', nst, 2)
     # / by zero test (floating division in the `/` branch)
     ev_top = ev
     ev = _handler(prog, ev_top, 'BinaryExpression')[0]       # eval itself, or the helper the binary handler forwards to
